@@ -4,8 +4,8 @@
 set -u
 PATCH="$1"; OUT="$2"; shift 2
 export GOFLAGS=-mod=mod GOPROXY=off GOSUMDB=off GOTOOLCHAIN=local
-TB=/work/mt; WT=/tmp/mt-repo
-exec 8>/tmp/mt.lock; flock 8
+TB=${MT_TB:-/work/mt}; WT=${MT_WT:-/tmp/mt-repo}
+exec 8>${MT_LOCK:-/tmp/mt.lock}; flock 8
 if [ ! -d $WT ]; then git -C /repo worktree add --detach $WT HEAD >/dev/null 2>&1; fi
 git -C $WT checkout -q --detach "$(git -C /repo rev-parse HEAD)" && git -C $WT checkout -q -- . && git -C $WT clean -fdq
 mkdir -p $TB && rsync -a --delete --exclude .git --exclude bin --exclude replays --exclude evidence /verif/ $TB/ && mkdir -p $TB/bin $TB/evidence
@@ -15,7 +15,7 @@ echo "{" > "$OUT"
 first=1
 for id in "$@"; do
   log=/tmp/mt_$id.log
-  (cd $TB && VERIF_REPO=$WT timeout 1800 ./check $id quick > $log 2>&1); rc=$?
+  (cd $TB && VERIF_REPO=$WT timeout 1800 ./check $id ${MT_TIER:-quick} > $log 2>&1); rc=$?
   sigs=$(grep -h "^  signature:" $log | sort | uniq -c | sort -rn | head -5 | sed 's/"/\\"/g' | tr '\n' ';')
   known=$(grep -c "^KNOWN-FINDING" $log)
   [ $first = 1 ] || echo "," >> "$OUT"; first=0
